@@ -343,6 +343,13 @@ def serve_only_verified(ctx, prog, spec, rule="R4"):
         lo = sl[2]
         want = lo is not None and _is_rem_offset(lo, spec)
         ctx.ob(rule, "serve-offset/%s" % short(f.path), want, "slice start is %s (must be %s %% (%s-%d))" % (tree_str(strip_deep(lo)) if lo else None, spec["cursor"], spec["size"], spec["checksum"]), where=f.file_line(bi))
+    # the cursor advances only after the page was verified: a failed load leaves the reader where it was
+    for bi2, si2, kind2, payload2 in field_assignments(f, spec["adt"], spec["cursor"]):
+        okc = bi2 not in still
+        ctx.ob(rule, "advance-after-verify/%s" % short(f.path), okc,
+               "the assignment to %s %s reachable when the cache-hit edge and the Ok-edge of %s are cut: a read that fails must not move the cursor" % (
+                   spec["cursor"], "is NOT" if okc else "IS", short(spec["load"])), where=f.file_line(bi2, si2 if isinstance(si2, int) else None),
+               path=None if okc else " -> ".join("bb%d" % b for b in find_path(g, [0], {bi2}, set())))
     okp = len(page_trees) >= 2 and all(_is_div_offset(p, spec) for p in page_trees)
     ctx.ob(rule, "serve-page/%s" % short(f.path), okp, "page compared with the cache key and page loaded are both %s / (%s-%d): %s" % (
         spec["cursor"], spec["size"], spec["checksum"], [tree_str(p) for p in page_trees]))
@@ -407,6 +414,13 @@ def validate_crc_rule(ctx, prog, rule="R7"):
                 te = int_test_edges(f, Resolver(f), cont)
                 if te is not None and 0 in te[1]:
                     cmp0 = te[1][0] not in body and any(s_ in body for s_ in te[2])
+                    # ... and it is the only way to leave the loop successfully: any other exit (a page counter
+                    # compared with a header field, a byte budget) could end validation before the last page
+                    for b_ in body:
+                        for s_ in f.cfg().get(b_, []):
+                            if s_ not in body and not (b_ == cont and s_ == te[1][0]) and f.ok_reachable(start=[s_]) is not None:
+                                cmp0 = False
+                                other_exit = (b_, s_)
         buf = strip(R.operand(t["args"][1]))
         size_ok = False
         for sub in leaves(R.operand(t["args"][1])):
